@@ -25,6 +25,19 @@ MODELS = {
     "conn_guided4": ("MC_Conn.tla", "MC_Conn_guided4.cfg", 3600, W_CONN_ALL),
     # free sender (any template after any), 3 lines: 690 k states
     "conn_free3": ("MC_Conn.tla", "MC_Conn_free3.cfg", 1800, ["bad_method", "bad_uri", "bad_version", "bad_format", "bad_value", "cr_lf_split"]),
+    # server: 2 clients (one rogue), MaxConn 2, 4 programs, flush, every batch order, atomic polls
+    "srv_quick": ("MC_Server.tla", "MC_Server_quick.cfg", 1200, ["two_event_batch", "swept_after_respond", "respond_on_closed", "pipelined_yield",
+                  "partial_write", "interim_sent", "flush_used", "fd_reused", "error_400", "epipe", "discard_on_error", "closed_with_inflight"]),
+    "srv_progs": ("MC_Server.tla", "MC_Server_progs.cfg", 1200, ["two_event_batch", "pipelined_yield", "partial_write", "error_400", "discard_on_error"]),
+    # clients move between the sub-steps of a poll (race-only branches)
+    "srv_race": ("MC_Server.tla", "MC_Server_race.cfg", 1200, ["hup_mid_poll", "closed_with_inflight", "epipe", "respond_on_closed"]),
+    # kill switch signalled at any point of the application's turn
+    "srv_kill": ("MC_Server.tla", "MC_Server_kill.cfg", 1200, ["kill_returned", "two_event_batch", "interim_sent"]),
+    # 3 clients against MaxConn = 2: refusal with 503, release, descriptor reuse
+    "srv_capq": ("MC_Server.tla", "MC_Server_capq.cfg", 1200, ["refused", "fd_reused", "closed_with_inflight", "swept_after_respond"]),
+    "srv_cap": ("MC_Server.tla", "MC_Server_cap.cfg", 3600, ["refused", "fd_reused", "closed_with_inflight", "error_400"]),
+    # liveness under weak fairness: everything sent is answered, received, and the system rests
+    "srv_live": ("MC_Server.tla", "MC_Server_live.cfg", 1200, ["interim_sent", "pipelined_yield"]),
     # descriptors arriving with reads (C12)
     "conn_files": ("MC_Conn.tla", "MC_Conn_files.cfg", 1800, ["files_delivered", "body_delivered", "pipelined"]),
 }
@@ -293,6 +306,219 @@ TABLE = {
     "C12": lambda tier, seed: conn_property("C12", tier, seed, ["conn_files"], [("full", "C12")], CONN_ASSUME, "DESIGN.md 6 C12"),
     "C13": lambda tier, seed: conn_property("C13", tier, seed, conn_models(tier), [("full", "C13"), ("small", "C13")], CONN_ASSUME, "DESIGN.md 6 C13"),
 }
+
+# ---------------------------------------------------------------------------
+# server-level properties (closed loop over real sockets)
+# ---------------------------------------------------------------------------
+def srv_cfg(kind):
+    maxconn, buf = (10, 1024) if kind == "full" else (3, 32)
+    return """SPECIFICATION Spec
+CONSTANTS
+  BUF = %d
+  MaxConn = %d
+  Clients = {%s}
+  Fds = {%s}
+INVARIANT SrvInv
+POSTCONDITION Accepted
+CHECK_DEADLOCK FALSE
+""" % (buf, maxconn, ", ".join(str(i) for i in range(1, 15)), ", ".join(str(i) for i in range(3, 90)))
+
+# first-divergence kinds that belong to each property's projection
+SRV_PROJ = {
+    "C07": r"^(bytes:|sweep:in-flight|token:|yield:)",
+    "C08": r"^(ready:|batch:|pollerr:|apierr:|bytes:missing|bytes:differ|yield:|write:|invariant)",
+    "C09": r"^(pollerr:|apierr:|ready:|sweep:dead|fds:count|batch:)",
+    "C10": r"^(capacity:|fds:|sweep:dead|sweep:live|eof:|bytes:)",
+    "C18": r"^(kill:|ready:|pollerr:)",
+    "C04": r"^(bytes:)",
+    "C11": r"^(bytes:|yield:)",
+    "C13": r"^(bytes:|yield:)",
+}
+
+def hist_events(trace_path):
+    cur, hid = [], None
+    with open(trace_path) as f:
+        for line in f:
+            if not line.strip():
+                continue
+            e = json.loads(line)
+            if e["e"] == "reset":
+                cur, hid = [e], e["hist"]
+            else:
+                cur.append(e)
+                if e["e"] == "endhist":
+                    yield hid, cur
+                    cur = []
+
+def srv_conformance(pid, tier, seed, kind, domain, nhist, tag):
+    binpath = V.build_harness(kind)
+    trace = os.path.join(V.WORK, "%s.trace" % tag)
+    sockdir = os.path.join(V.WORK, "sock")
+    os.makedirs(sockdir, exist_ok=True)
+    t0 = time.time()
+    # several driver processes in parallel (each single-threaded), different seeds
+    nproc = min(8, max(1, nhist // 50))
+    per = (nhist + nproc - 1) // nproc
+    procs = []
+    for i in range(nproc):
+        part = "%s.p%d" % (trace, i)
+        f = open(part, "w")
+        procs.append((subprocess.Popen([binpath, "srv", domain, str(seed * 1000 + i), str(per), sockdir], stdout=f, stderr=subprocess.PIPE), f, part))
+    crashes = []
+    with open(trace, "w") as out:
+        hid = 0
+        for pr, f, part in procs:
+            try:
+                _, err = pr.communicate(timeout=900)
+            except subprocess.TimeoutExpired:
+                pr.kill()
+                crashes.append({"how": "hang", "part": part})
+            f.close()
+            if pr.returncode not in (0, None):
+                crashes.append({"how": "exit %s" % pr.returncode, "part": part})
+            # renumber histories so that ids are unique across parts; drop an unfinished tail
+            buf = []
+            for line in open(part):
+                if '"e":"reset"' in line:
+                    buf = []
+                    hid += 1
+                    line = re.sub(r'"hist":\d+', '"hist":%d' % hid, line, count=1)
+                if '"e":"endhist"' in line:
+                    line = re.sub(r'"hist":\d+', '"hist":%d' % hid, line, count=1)
+                    buf.append(line)
+                    out.writelines(buf)
+                    buf = []
+                else:
+                    buf.append(line)
+            os.remove(part)
+    t_exec = time.time() - t0
+    t0 = time.time()
+    res = V.validate_trace("Trace_Srv.tla", srv_cfg(kind), trace, tag, timeout_s=1500, boundary='"e":"reset"')
+    t_val = time.time() - t0
+    errors = [r for r in res if r["error"]]
+    if errors:
+        raise V.ToolError("trace validation failed to run: %s (%s)" % (errors[0]["error"], errors[0]["shard"]))
+    mism = [m for r in res for m in r["mismatches"]]
+    events = sum(r["consumed"] for r in res)
+    V.log("%s/%s/%s: %d histories requested, %d events validated (exec %.1fs, TLC %.1fs), %d divergent histories, %d crashes"
+          % (tag, kind, domain, nhist, events, t_exec, t_val, len(mism), len(crashes)))
+    return {"kind": kind, "domain": domain, "trace": trace, "mismatches": mism, "crashes": crashes, "events": events,
+            "states": sum(r["states"] for r in res)}
+
+def nontrivial_srv(pid, evs):
+    polls = [e for e in evs if e["e"] == "poll" and e.get("called")]
+    if pid == "C07":
+        return any(e["e"] in ("close", "shutwr", "shutrd") for e in evs) and any(e["e"] == "respond" for e in evs)
+    if pid == "C08":
+        return any(len(p["hooks"][0]["ev"]) >= 2 for p in polls if p.get("hooks")) or any(e["e"] == "respond" for e in evs)
+    if pid == "C09":
+        return any(e["e"] in ("close", "shutwr", "shutrd") for e in evs)
+    if pid == "C10":
+        return any(h.get("h") == "refuse" for p in polls for h in p.get("hooks", []))
+    if pid == "C18":
+        return any(e["e"] == "kill" for e in evs)
+    return True
+
+SRV_RULES = {
+    "C07": "one case = one history over real sockets; non-trivial = a client closes/half-closes and the application responds in the same history; distinct by hash of the step sequence",
+    "C08": "one case = one history of well-behaved clients; non-trivial = a batch with >= 2 events or at least one response; distinct by hash of the step sequence",
+    "C09": "one case = one history with a witness and misbehaving clients; non-trivial = at least one close/shutdown by a client; distinct by hash of the step sequence",
+    "C10": "one case = one history around the capacity limit; non-trivial = at least one connection refused with 503; distinct by hash of the step sequence",
+    "C18": "one case = one history with the kill switch signalled at a random point; non-trivial = the signal was sent; distinct by hash of the step sequence",
+}
+
+def srv_property(pid, tier, seed, models, drivers, assumptions, design_ref):
+    t0 = time.time()
+    known = [k for k in V.load_known() if k["property"] == pid]
+    violations, known_hits, oop = [], [], 0
+    mres = []
+    for mname in models:
+        module, cfg, tmo, need = MODELS[mname]
+        r = V.run_model(mname, module, cfg, tmo, need=need)
+        mres.append(r)
+        if r["violated"]:
+            path = V.save_replay(pid, {"property": pid, "level": "model", "model": mname, "violated": r["violated"], "log": "work/tlc-%s.log" % mname})
+            violations.append(("model:%s:%s" % (mname, r["violated"]), path))
+    cres = []
+    for i, (kind, domain, nq, nt) in enumerate(drivers):
+        cres.append(srv_conformance(pid, tier, seed, kind, domain, nq if tier == "quick" else nt, "%s-%s-%d" % (pid, kind, i)))
+    evals, distinct, samples, total_div = 0, set(), [], 0
+    for cr in cres:
+        bad = {m["hist"]: m for m in cr["mismatches"] if "hist" in m}
+        for hid, evs in hist_events(cr["trace"]):
+            evals += 1
+            h = hashlib.sha256(json.dumps([[e.get(k) for k in ("e", "c", "bytes", "tag", "state")] for e in evs]).encode()).hexdigest()
+            if nontrivial_srv(pid, evs):
+                if h not in distinct and len(samples) < 2:
+                    samples.append({"domain": cr["domain"], "events": short(evs[:40])})
+                distinct.add(h)
+            if hid in bad:
+                m = bad[hid]
+                total_div += 1
+                kind_ = m.get("kind", "?")
+                sig = "srv|%s|%s|%s" % (cr["kind"], cr["domain"], kind_)
+                if not re.search(SRV_PROJ[pid], kind_):
+                    oop += 1
+                    continue
+                hit = [k for k in known if re.search(k["signature"], sig)]
+                if hit:
+                    known_hits.append((hit[0], sig))
+                    continue
+                steps = [dict(e) for e in evs]
+                path = V.save_replay(pid, {"property": pid, "level": "srv", "build": cr["kind"], "domain": cr["domain"],
+                                           "signature": sig, "steps": steps, "mismatch": m})
+                violations.append((sig, path))
+        for c in cr["crashes"]:
+            raise V.ToolError("server driver %s" % c)
+    cov = {
+        "states": sum(r["distinct"] for r in mres) + sum(c["states"] for c in cres),
+        "transitions": sum(r["states_generated"] for r in mres) + sum(c["events"] for c in cres),
+        "traces_validated_against_impl": evals - total_div,
+        "samples": samples,
+        "evaluations": evals,
+        "distinct_nontrivial": len(distinct),
+        "rule": SRV_RULES[pid],
+        "exhaustive": False,
+        "models": [{"name": r["name"], "cfg": r["cfg"], "distinct_states": r["distinct"], "states_generated": r["states_generated"],
+                    "depth": r["depth"], "witnesses_reached": r["witnesses"], "reused_from_cache": r.get("cached", False), "wall_s": r.get("wall_s")} for r in mres],
+        "conformance": [{"build": c["kind"], "domain": c["domain"], "trace_events_validated": c["events"], "divergent_histories": len(c["mismatches"])} for c in cres],
+        "out_of_projection": oop,
+        "known_findings_hit": len(known_hits),
+        "design_ref": design_ref,
+    }
+    V.write_evidence(pid, tier, seed, cov, time.time() - t0, len(violations), assumptions)
+    seen = set()
+    for k, sig in known_hits:
+        if k["text"] not in seen:
+            print("KNOWN-FINDING: property=%s %s [%s]" % (pid, k["text"], sig))
+            seen.add(k["text"])
+    if violations:
+        shown = set()
+        for sig, path in violations:
+            if sig in shown or len(shown) >= 5:
+                continue
+            shown.add(sig)
+            print("VIOLATION property=%s replay=%s" % (pid, path))
+            V.log("  signature:", sig)
+        return 1
+    print("OK property=%s tier=%s evaluations=%d distinct_nontrivial=%d out_of_projection=%d wall=%.0fs" % (pid, tier, evals, len(distinct), oop, time.time() - t0))
+    return 0
+
+SRV_ASSUME = [
+    "TLC and the CommunityModules Json/IOUtils modules are correct",
+    "Linux semantics of Unix stream sockets and epoll as measured in this sandbox (DESIGN 1, Kernel facts)",
+    "the harness is single-threaded: nothing happens inside a requests() call except what the logged batch determines",
+    "hooks (cfg micro_http_verif) report the epoll batch, accepted/removed descriptors and write results faithfully",
+    "closed loop: the first divergence of a history decides; the rest of that history is not examined",
+]
+
+TABLE.update({
+    "C07": lambda tier, seed: srv_property("C07", tier, seed, ["srv_quick", "srv_race", "srv_capq"] + (["srv_cap"] if tier == "thorough" else []), [("full", "C07", 300, 3000), ("small", "C07", 300, 3000)], SRV_ASSUME, "DESIGN.md 6 C07"),
+    "C09": lambda tier, seed: srv_property("C09", tier, seed, ["srv_quick", "srv_race", "srv_capq"] + (["srv_cap"] if tier == "thorough" else []), [("full", "C09", 300, 3000), ("small", "C09", 200, 2000), ("small", "C10", 200, 2000)], SRV_ASSUME, "DESIGN.md 6 C09"),
+    "C10": lambda tier, seed: srv_property("C10", tier, seed, ["srv_capq"] + (["srv_cap"] if tier == "thorough" else []), [("small", "C10", 300, 3000), ("full", "C10", 150, 1500)], SRV_ASSUME, "DESIGN.md 6 C10"),
+    "C18": lambda tier, seed: srv_property("C18", tier, seed, ["srv_kill"], [("full", "C18", 300, 3000), ("small", "C18", 200, 2000)], SRV_ASSUME, "DESIGN.md 6 C18"),
+    "C08": lambda tier, seed: srv_property("C08", tier, seed, ["srv_quick", "srv_progs", "srv_live"], [("full", "C08", 300, 3000), ("small", "C08", 200, 2000)], SRV_ASSUME, "DESIGN.md 6 C08"),
+})
 
 def run(pid, tier, seed):
     if pid not in TABLE:
